@@ -107,7 +107,29 @@ def gen_param_race(r: random.Random) -> dict[str, Any]:
     return {"setup": setup, "calls": calls, "nthreads": nthreads}
 
 
+def gen_finish_read_race(r: random.Random) -> dict[str, Any]:
+    """One thread finishes (or fails / prunes) a RUNNING trial while others read exactly that trial by id and list the study:
+    a reader must see the trial either still RUNNING or finished WITH its completion time and values - never a state in
+    between (a finished copy published before its completion time is set, read without the lock)."""
+    setup: list[dict[str, Any]] = [{"op": "createStudy", "name": "s0", "dirs": [1]}]
+    n = r.randint(1, 3)
+    for _ in range(n):
+        setup.append({"op": "createTrial", "sid": 0, "tmpl": None})
+    nthreads = r.choice([2, 2, 3])
+    calls: list[dict[str, Any]] = []
+    t = r.randrange(n)
+    st = r.choice([1, 1, 2, 3])
+    calls.append({"thread": 0, "op": {"op": "setTrialStateValues", "tid": t, "state": st, "values": [K.ftok(float(r.randrange(5)))] if st == 1 else None}})
+    for th in range(1, nthreads):
+        for _ in range(r.randint(1, 3)):
+            calls.append({"thread": th, "op": r.choice([{"op": "getTrial", "tid": t}, {"op": "getTrial", "tid": t}, {"op": "getAllTrials", "sid": 0, "states": None}])})
+    calls.append({"thread": nthreads, "op": {"op": "getTrial", "tid": t}})
+    return {"setup": setup, "calls": calls, "nthreads": nthreads}
+
+
 def gen_case(r: random.Random) -> dict[str, Any]:
+    if r.random() < 0.1:
+        return gen_finish_read_race(r)
     if r.random() < 0.12:
         return gen_best_race(r)
     if r.random() < 0.1:
